@@ -542,12 +542,23 @@ func (k *checker) check(sp spec, tag string) {
 		s.Count("results:slowest tenth failed (code 0 + error), other codes mixed")
 	}
 	var m vegeta.Metrics
+	codePanic := ""
+	var call func(what string, f func()) bool
 	if p, msg := kit.Recover(func() {
 		// compression pass: watch the estimator vegeta owns; check the Adds that trigger process
 		// (all of them for small sets, the first two, some random ones and the last otherwise),
 		// one Add that does not, and the process() that the first Quantile of Close starts with
 		var rd tdReader
 		have := false
+		// calls into the code under test run under their own recover, so that a panic of the harness's
+		// own reflection is never mistaken for one of theirs
+		call = func(what string, f func()) bool {
+			if p, msg := kit.Recover(f); p {
+				codePanic = what + " panicked: " + msg
+				return false
+			}
+			return true
+		}
 		// the model replays ~1000 centroids per such op in software floats: in the thorough tier the
 		// compression pass is watched on a third of the data sets (the Quantile-level checks run on all)
 		mergeWatch := k.c.Tier != "thorough" || k.r.Chance(0.33)
@@ -570,11 +581,17 @@ func (k *checker) check(sp spec, tag string) {
 					pre = rd.read()
 				}
 			}
-			m.Add(sp.resultFor(i, l, errCut))
+			if !call("Metrics.Add", func() { m.Add(sp.resultFor(i, l, errCut)) }) {
+				return
+			}
 			if !have {
-				rd = newReader(digestOf(&m))
-				maxU = rd.read().maxU
-				have = true
+				// the estimator exists once a sample reached it (nil until then)
+				if td := digestOf(&m); td != nil {
+					rd = newReader(td)
+					maxU = rd.read().maxU
+					have = true
+				}
+				watch = false
 			}
 			if watch {
 				k.mc.addOp(s, pre, float64(l), 1, rd.read(), 100, fmt.Sprint(repl))
@@ -584,7 +601,10 @@ func (k *checker) check(sp spec, tag string) {
 					if ci%2 == 1 {
 						// an HDR report asked for WITHOUT a Close since the last Adds (the library allows it)
 						var hb bytes.Buffer
-						herr := vegeta.NewHDRHistogramPlotReporter(&m).Report(&hb)
+						var herr error
+						if !call("HDR report", func() { herr = vegeta.NewHDRHistogramPlotReporter(&m).Report(&hb) }) {
+							return
+						}
 						rows, ok := parseHDR(hb.Bytes())
 						ps := prefixSorted(lats, c)
 						s.Count("history:HDR report without Close after more Adds")
@@ -592,14 +612,19 @@ func (k *checker) check(sp spec, tag string) {
 						break
 					}
 					// intermediate report on the prefix (Close, then more Adds, then Close again)
-					m.Close()
+					if !call("Metrics.Close", func() { m.Close() }) {
+						return
+					}
 					ps := prefixSorted(lats, c)
 					L := m.Latencies
 					s.Count("history:intermediate Close")
 					k.oracleChain(view{"fields@prefix", []int64{int64(L.Min), int64(L.P50), int64(L.P90), int64(L.P95), int64(L.P99), int64(L.Max)}, true}, ps, repl, ps[0] == 0)
 					if c%2 == 0 {
 						var hb bytes.Buffer
-						herr := vegeta.NewHDRHistogramPlotReporter(&m).Report(&hb)
+						var herr error
+						if !call("HDR report", func() { herr = vegeta.NewHDRHistogramPlotReporter(&m).Report(&hb) }) {
+							return
+						}
 						rows, ok := parseHDR(hb.Bytes())
 						k.oracleHDR("hdr@prefix", rows, ok && herr == nil, ps, repl, ps[0] == 0)
 					}
@@ -607,18 +632,37 @@ func (k *checker) check(sp spec, tag string) {
 				}
 			}
 		}
-		preClose := rd.read()
-		m.Close()
+		var preClose full
+		if have {
+			preClose = rd.read()
+		}
+		if !call("Metrics.Close", func() { m.Close() }) {
+			return
+		}
 		// Close calls Quantile four times; the state after the first leading process() is the final one
-		if mergeWatch {
+		if mergeWatch && have {
 			k.mc.procOp(s, preClose, rd.read(), 100, fmt.Sprint(repl))
 		}
-	}); p {
-		s.Violate(kit.Violation{Kind: "metrics_panic", What: "Metrics.Add/Close panicked: " + msg, Input: repl})
+	}); p && codePanic == "" {
+		// not a panic of the code under test: the harness's own reading of the estimator failed
+		s.Count("harness:reflective read of the estimator failed")
+		s.Diverge("c11.valid", fmt.Sprint(repl), "harness could not read the estimator: "+msg, "an estimator as in lib/metrics.go")
+		return
+	}
+	if codePanic != "" {
+		s.Violate(kit.Violation{Kind: "metrics_panic", What: codePanic, Input: repl})
 		return
 	}
 	L := m.Latencies
 	td := digestOf(&m)
+	if td == nil {
+		// no sample ever reached an estimator: nothing for the model to be compared with — the property's own
+		// predicate is still evaluated on everything that was reported
+		s.Count("estimator nil after the Adds (no centroids)")
+		s.Diverge("c11.valid", fmt.Sprint(repl), "no estimator after Metrics.Add calls", "the estimator is created by the first Latencies.Add")
+		k.oracleOnly(&m, sp, repl, lats, sorted, hasZero)
+		return
+	}
 	st := readState(td)
 	s.Case(tag+fmt.Sprintf(":%s:%d:%s:%d", sp.Dist, n, sp.Order, sp.Seed), n >= 2 && distinct)
 	s.Count("dist:" + sp.Dist)
@@ -878,4 +922,25 @@ func runC11(c *run.Ctx, s *kit.Summary) {
 	}
 	s.Extra["worst_rank_distance_beyond_window_by_distribution"] = worst
 	s.Extra["max_centroids_after_process (maxProcessed = 200)"] = k.maxCen
+}
+
+
+// oracleOnly evaluates the property's predicate on what a Metrics reports, without any model
+// correspondence (used when the harness finds no estimator to read).
+func (k *checker) oracleOnly(m *vegeta.Metrics, sp, repl spec, lats, sorted []int64, hasZero bool) {
+	s := k.s
+	L := m.Latencies
+	chain := []int64{int64(L.Min), int64(L.P50), int64(L.P90), int64(L.P95), int64(L.P99), int64(L.Max)}
+	k.oracleChain(view{"fields", chain, true}, sorted, repl, hasZero)
+	var buf bytes.Buffer
+	var rerr error
+	if p, msg := kit.Recover(func() { rerr = vegeta.NewHDRHistogramPlotReporter(m).Report(&buf) }); p {
+		s.Violate(kit.Violation{Kind: "metrics_panic", What: "HDR report panicked: " + msg, Input: repl})
+		return
+	}
+	rows, ok := parseHDR(buf.Bytes())
+	k.oracleHDR("hdr", rows, ok && rerr == nil, sorted, repl, hasZero)
+	if sp.CLI {
+		k.cliReports(lats, sorted, repl, hasZero, nil)
+	}
 }
